@@ -644,12 +644,13 @@ func setFragment(uri *url.URL, params url.Values) string {
 }
 
 func mergeQueryParams(uri *url.URL, params url.Values) string {
-	queries := uri.Query()
-	for param, values := range params {
-		for _, value := range values {
-			queries.Add(param, value)
+	// Append to the registered query as it is: decoding and re-encoding it
+	// (uri.Query()) silently drops every pair net/url cannot parse, e.g. "x=1;y=2".
+	if encoded := params.Encode(); encoded != "" {
+		if uri.RawQuery != "" {
+			uri.RawQuery += "&"
 		}
+		uri.RawQuery += encoded
 	}
-	uri.RawQuery = queries.Encode()
 	return uri.String()
 }
